@@ -259,7 +259,7 @@ func c02(c *core.Ctx) {
 		rB.Check(okc, cl.Key, cl.Decl.Pos(), "file.Sync() succeeds before the successful close", "Close reports success without a successful fsync ("+why+")")
 		for _, pair := range [][2]string{{pkgChron + ".chroniclerV2.Sync", pkgV2 + ".FileWriter.Sync"}, {pkgChron + ".chroniclerV2.Close", pkgV2 + ".FileWriter.Close"}} {
 			f := c.Fn(pair[0])
-			rB.Check(callsDirect(f, pair[1]), pair[0], f.Decl.Pos(), "forwards to the writer", pair[0]+" no longer reaches "+pair[1])
+			rB.Check(callsDirect(f, pair[1]) || c.CG().ReachersOf(c.Fn(pair[1]))[f], pair[0], f.Decl.Pos(), "forwards to the writer (directly or through a helper)", pair[0]+" no longer reaches "+pair[1])
 		}
 		h := c.Fn(pkgSwamp + ".swamp.fileWriterHandler")
 		hinfo := h.Info()
